@@ -28,23 +28,23 @@ operator is built from: a sum operator stores 0.25 A + R and 0.75 A - R and real
                is genuine mis-convergence (start block nearly orthogonal to a wanted eigenvector; seen once in 5.7e4 thorough cases, on a
                fully clustered spectrum with min_eps 1e-5): such a case is re-run with 1e-4 min_eps and discarded
                (`davidson_misconverged_at_loose_min_eps`, counted) only if that run agrees with LAPACK; a wrong selection fails both.
-               Orthonormality: Cholesky-QR of [V, t] loses orthogonality like eps cond([V,t])^2, which min_eps does not control
-               (measured up to 1.3e-7 with min_eps 1e-6); required: <= tau + 4 sqrt(n k) min_eps / ||A||, i.e. at least as good as the
+               Orthonormality: a single Cholesky-QR pass of [V, t] loses orthogonality like eps cond([V,t])^2 (measured up to 1.3e-7, and
+               6e-6 in the regress case, before the CholeskyQR2 repair; ~1e-13 after), which min_eps does not control; required: <= tau + 4 sqrt(n k) min_eps / ||A||, i.e. at least as good as the
                eigenvector accuracy sqrt(n k) min_eps / ||A|| that the residual test itself implies.
 svd (through symeig of A^H A or A A^H, singular values s in [0.3, 3] by construction):
   tau_s = 1e3 max(m,n) eps (smax/smin)^2;  U^H U = I, Vh Vh^H = I within tau_s;  A v_i = s_i u_i, A^H u_i = s_i v_i, U diag(S) Vh = A
   (full k) and S vs the k extreme scipy svdvals within tau_s smax;  S >= 0;  davidson: tau_s + 4 sqrt(max(m,n) k) min_eps / smin^2.
 
-Recorded finding (SITES): davidson breaks down on a rank-deficient expansion block [V, t] (a residual column that is numerically zero
-while another pair is not converged): LinAlgError from the Cholesky-QR, or loss of orthogonality and a warned / wrong result.  With
-exactly repeated eigenvalues this happens when a multiplicity exceeds the block size neig (block-Krylov exhaustion) or, for small n,
-when dim V + multiplicity > n before the full space is reached.  That region (repeated eigenvalue and (multiplicity > neig or neig does
-not divide n)) is generated only if known_findings.json lists the site `davidson_rank_deficient_expansion`; otherwise multiplicities are
-capped at neig and n is a multiple of neig by construction (repetition at the cut is still generated: neig=2, spectrum 1,2,2,...).
-The same LinAlgError also occurs, rarely (about 1 in 1e4 davidson cases, clustered spectra, no exact repeat), when the residual block becomes
-numerically rank deficient; this cannot be excluded by construction, so on spectra with a cluster or repeat that exception kind is a
-known-finding hit when the site `davidson_clustered` is listed and an explicitly named discard otherwise (forward_call); on well separated
-spectra it is always a violation.
+Recorded finding (SITES, see with_recorded_finding): davidson orthonormalises its expansion block [V, t] by a Cholesky factorisation of
+the Gram matrix.  When the block is numerically rank deficient (a residual column that is ~0 or nearly parallel to another while a pair is
+not converged) this raises LinAlgError in tallqr or silently loses orthogonality (wrong Ritz pairs, unexpected warning).  With exactly
+repeated eigenvalues it is structural: multiplicity > neig (block-Krylov exhaustion) or neig not dividing n (dim V + multiplicity > n before
+the full space): that region (`davidson_rank_deficient_expansion`) is generated only if known_findings.json lists the site
+`davidson_clustered`; otherwise multiplicities are capped at neig and n is a multiple of neig by construction (repetition at the cut is
+still generated: neig=2, spectrum 1,2,2,...).  On spectra with 1e-3 clusters it also occurs (after the CholeskyQR2 repair: the LinAlgError about once in 7000 thorough-size cases) and
+cannot be excluded by construction: for davidson cases whose spectrum has a cluster or repeat, the kinds `exception:_LinAlgError@...tallqr`
+and `davidson_numerics:*` are known-finding hits when the site is listed and explicitly named discards
+(`recorded_finding_not_listed:*`) otherwise.  On well separated spectra they are always violations.
 """
 from __future__ import annotations
 
@@ -76,7 +76,9 @@ ASSUMPTIONS = [
     "tolerances: see module docstring; constants 1e3 on n*eps*cond(M) (dense); davidson: silent return => entry-wise residual <= min_eps (+rounding)",
     "davidson: a ConvergenceWarning voids the accuracy claims of that case (counted as discard `convergence_warning`; about 8% of the davidson "
     "cases use max_niter in 1..4 on purpose); min_eps is drawn such that the residual resolution is <= 1/4 of the smallest non-zero gap",
-    "davidson: exact repeats only with multiplicity <= neig and n a multiple of neig unless known_findings.json lists site davidson_rank_deficient_expansion (recorded finding)",
+    "davidson: exact repeats only with multiplicity <= neig and n a multiple of neig unless known_findings.json lists site davidson_clustered (recorded finding); "
+    "numerical failures of davidson on spectra with clusters/repeats are that recorded finding: known-finding hits if listed, named discards otherwise",
+    "davidson with max_niter >= ceil(n/neig)+1 (or default) must return without a ConvergenceWarning (the full space is reached, where Rayleigh-Ritz is exact)",
     "davidson's start block is generic w.r.t. the eigenvectors (A = S Q diag Q^H S^H with seeded random Q), so mis-convergence from a start "
     "vector orthogonal to a wanted eigenvector is not generated (DESIGN.md section 6)",
     "davidson supports real dtypes only (it transposes without conjugation); complex is generated for the dense paths only",
@@ -96,21 +98,42 @@ MODES_UP = ["uppest", "uppermost", "Uppest", "UpperMost", "UPPERMOST"]
 BREAKDOWN_KIND = "exception:_LinAlgError@xitorch/_utils/tensor.py:tallqr"
 
 
-def forward_call(call, nograd, method, clustered):
-    """run the xitorch call.  davidson's Cholesky-QR breakdown (LinAlgError raised in tallqr) is a recorded, unrepaired finding whose
-    region is only partly structural (see rank_deficient_expansion_region; it also happens, about once in 1e4 cases, when the residual block
-    becomes numerically rank deficient on spectra with clusters): for spectra with a cluster or an exact repeat, if known_findings.json
-    lists it (site `davidson_clustered`) the violation is passed on and counted as a known-finding hit, otherwise the case is discarded under
-    an explicit reason and counted in the evidence.  On well separated spectra the exception is always a violation."""
-    try:
-        if nograd:
-            with torch.no_grad():
-                return xt_call(call, _where="forward"), None
-        return xt_call(call, _where="forward"), None
-    except XitorchRaised as e:
-        if method == "davidson" and clustered and e.kind.startswith(BREAKDOWN_KIND) and not _listed("davidson_clustered"):
-            return None, "davidson_cholesky_breakdown(recorded_finding_not_listed)"
-        raise
+def forward_call(call, nograd):
+    if nograd:
+        with torch.no_grad():
+            return xt_call(call, _where="forward")
+    return xt_call(call, _where="forward")
+
+
+NUMERICS = ("residual", "orthonormality", "u_orthonormal", "v_orthonormal", "pairing", "pairing_adjoint", "reconstruction",
+            "nonconvergence_with_sufficient_budget")
+
+
+def with_recorded_finding(run):
+    """davidson orthonormalises its expansion block [V, t] by a Cholesky factorisation of the Gram matrix and reuses A V of the old columns.
+    When the block is (numerically) rank deficient this raises LinAlgError in tallqr or silently loses orthogonality (then the cached A V, the
+    residual test and the Ritz pairs are wrong).  This is a recorded, unrepaired finding.  Its region is partly structural (exact repeats:
+    rank_deficient_expansion_region, avoided by construction) and partly not (spectra with 1e-3 clusters; before the repair `fix: davidson lost
+    the orthonormality ...` (second Cholesky-QR pass) about 1 in 3000 cases incl. separated spectra, afterwards only the LinAlgError, about 1 in 7000).
+    Policy for davidson cases whose spectrum has a cluster or an exact repeat: the kinds `exception:_LinAlgError@...tallqr` and
+    `davidson_numerics:*` are passed on as violations when known_findings.json lists the site `davidson_clustered` (the harness counts them
+    as known-finding hits) and are turned into explicitly named discards otherwise.  On well separated spectra they are always violations
+    (none in > 2e4 thorough-size cases on the repaired tree; the davidson mutants are caught there)."""
+    def wrapped(case):
+        try:
+            v = run(case)
+        except XitorchRaised as e:
+            v = violation(e.kind, e.detail)
+        if v.status != "violation" or case.get("method") != "davidson":
+            return v
+        if v.kind in NUMERICS:
+            v = violation("davidson_numerics:" + v.kind, v.detail, v.labels)
+        elif not v.kind.startswith(BREAKDOWN_KIND):
+            return v
+        if not has_cluster(case.get("lam") or case.get("sv")) or _listed("davidson_clustered"):
+            return v
+        return discard("recorded_finding_not_listed:" + ("tallqr_LinAlgError" if v.kind.startswith(BREAKDOWN_KIND) else v.kind), v.labels)
+    return wrapped
 
 
 def _listed(site):
@@ -141,7 +164,7 @@ def symeig_case_labels(case, p, k):
             "structure=%s" % case.get("structure", "generic")]
 
 
-def run_symeig(case):
+def _run_symeig(case):
     import xitorch.linalg as xl
     torch.manual_seed(case["seed"] & 0x7FFFFFFF)
     g = gen.seeded(case["seed"])
@@ -172,9 +195,7 @@ def run_symeig(case):
         return xl.usymeig(Aop, case["neig"], Mop, **kwargs)
     with warnings.catch_warnings(record=True) as wlist:
         warnings.simplefilter("always")
-        out, broke = forward_call(call, case["nograd"], method, has_cluster(lam))
-    if broke:
-        return discard(broke, labels)
+        out = forward_call(call, case["nograd"])
     warned = [w for w in wlist if "onverge" in type(w.message).__name__ or "onverge" in str(w.message)]
     if not (isinstance(out, tuple) and len(out) == 2):
         return violation("return_type", "symeig returned %r" % (type(out),), labels)
@@ -188,6 +209,13 @@ def run_symeig(case):
     if not (bool(torch.isfinite(E).all()) and bool(torch.isfinite(X.abs()).all())):
         return violation("nonfinite", "non-finite eigenpairs: E=%s" % _fmt(E), labels)
     if warned:
+        if method == "davidson":
+            mn = opts.get("max_niter")
+            if mn is None or mn >= -(-n // k) + 1:
+                # with that many iterations the search space is the full space, where Rayleigh-Ritz is exact: a warning means that the
+                # orthonormalisation went wrong (recorded finding on clustered spectra, see with_recorded_finding; a violation otherwise)
+                return violation("nonconvergence_with_sufficient_budget", "davidson warned %r although max_niter=%s allows the full space "
+                                 "(n=%d, neig=%d, opts=%s)" % (str(warned[0].message)[:120], mn, n, k, opts), labels + ["conv=warned"])
         return discard("convergence_warning", labels + ["conv=warned"])
     E = E.detach().to(torch.float64)
     X = X.detach()
@@ -267,7 +295,7 @@ def run_symeig(case):
 
 # ------------------------------------------------------------------------------------------------ svd
 
-def run_svd(case):
+def _run_svd(case):
     import xitorch.linalg as xl
     torch.manual_seed(case["seed"] & 0x7FFFFFFF)
     g = gen.seeded(case["seed"])
@@ -310,9 +338,7 @@ def run_svd(case):
         return xl.svd(Aop, case["k"], case["mode"], **kwargs)
     with warnings.catch_warnings(record=True) as wlist:
         warnings.simplefilter("always")
-        out, broke = forward_call(call, case["nograd"], method, has_cluster(sv))
-    if broke:
-        return discard(broke, labels)
+        out = forward_call(call, case["nograd"])
     warned = [w for w in wlist if "onverge" in type(w.message).__name__ or "onverge" in str(w.message)]
     if not (isinstance(out, tuple) and len(out) == 3):
         return violation("return_type", "svd returned %r" % (type(out),), labels)
@@ -359,6 +385,10 @@ def run_svd(case):
             return violation("reconstruction", "max|U diag(S) Vh - A| = %.3e > %.3e" % (rec, tau * smax), labels)
     nontriv = len(set(sv)) >= 2 and (k < r or m != n or any(b > 1 for b in batch) or kind != "dense")
     return ok(labels, nontrivial=nontriv)
+
+
+run_symeig = with_recorded_finding(_run_symeig)
+run_svd = with_recorded_finding(_run_svd)
 
 
 # ------------------------------------------------------------------------------------------------ strategies
@@ -566,19 +596,18 @@ def _davidson_rank_deficient(case):
 
 
 # recorded finding (no small repair): generated only if known_findings.json lists this site
-SITES = {"davidson_rank_deficient_expansion": _davidson_rank_deficient,
-         # for the kind BREAKDOWN_KIND only:
-         "davidson_clustered": lambda case: case.get("method") == "davidson" and has_cluster(case.get("lam") or case.get("sv"))}
+SITES = {"davidson_clustered": lambda case: case.get("method") == "davidson" and has_cluster(case.get("lam") or case.get("sv")),
+         "davidson_rank_deficient_expansion": _davidson_rank_deficient}
 
 
 def _known_region():
-    return _listed("davidson_rank_deficient_expansion")
+    return _listed("davidson_clustered")
 
 
 def tasks(tier):
     kr = _known_region()
     return [
-        Task("dense", strategy=dense_case_st(tier), run=run_symeig, examples={"quick": 1600, "thorough": 30000}),
-        Task("davidson", strategy=davidson_case_st(tier, known_region=kr), run=run_symeig, examples={"quick": 500, "thorough": 8000}),
-        Task("svd", strategy=svd_case_st(tier), run=run_svd, examples={"quick": 1000, "thorough": 20000}),
+        Task("dense", strategy=dense_case_st(tier), run=run_symeig, examples={"quick": 1600, "thorough": 100000}),
+        Task("davidson", strategy=davidson_case_st(tier, known_region=kr), run=run_symeig, examples={"quick": 500, "thorough": 30000}),
+        Task("svd", strategy=svd_case_st(tier), run=run_svd, examples={"quick": 1000, "thorough": 70000}),
     ]
